@@ -860,7 +860,8 @@ impl CamtCase {
                 total = total.add(d.signed()).unwrap();
             }
             let (amount, credit) = if n_details == 0 {
-                (Q::int(rng.range(1, 300000) as i128).mul(cent).unwrap(), credit)
+                // (one plain entry in twenty-five books nothing: still an entry, still a transaction)
+                (if rng.chance(1, 25) { Q::ZERO } else { Q::int(rng.range(1, 300000) as i128).mul(cent).unwrap() }, credit)
             } else if total.is_zero() {
                 // keep the entry non-zero: drop the mixing
                 for d in details.iter_mut() {
@@ -924,7 +925,12 @@ impl CamtCase {
             }
             x.push_str(&format!("        <BkTxCd><Domn><Cd>{}</Cd><Fmly><Cd>{}</Cd><SubFmlyCd>{}</SubFmlyCd></Fmly></Domn></BkTxCd>\n", e.domain.0, e.domain.1, e.domain.2));
             if !e.details.is_empty() {
-                x.push_str(&format!("        <NtryDtls>\n          <Btch><NbOfTxs>{}</NbOfTxs></Btch>\n", e.details.len()));
+                // the batch header is optional: its absence says nothing about the number of details
+                if (e.amount.n + e.details.len() as i128) % 4 == 0 {
+                    x.push_str("        <NtryDtls>\n");
+                } else {
+                    x.push_str(&format!("        <NtryDtls>\n          <Btch><NbOfTxs>{}</NbOfTxs></Btch>\n", e.details.len()));
+                }
                 for d in &e.details {
                     x.push_str("          <TxDtls>\n            <Refs>");
                     if let Some(r) = &d.reference {
